@@ -45,9 +45,21 @@ for r in sorted(set(rnd(m) for m in rows)):
                    "from older rules meeting a helper split (R09d polling loop in a helper, R15i lookup helper, R02b-post posting\n"
                    "helper, R10a-dec guard at the call site, reviewed C06 entries two calls away). The rate is back above a third:\n"
                    "a rule is only as general as the restructurings it has met.\n")
+    elif r==6:
+        out.append("Round 6 was made in the last hour, in the same aimed way (six properties, helper splits and control-flow rewrites\n"
+                   "of functions that older rules are anchored on). Seven of twelve raised an alarm — the worst rate of all rounds,\n"
+                   "because helper splits are exactly what anchored rules cannot take. Three were repaired in the time left (C17-15,\n"
+                   "C17-16, C05-15); **four are open false alarms of the committed checker** and are listed as such: C03-15 (operand\n"
+                   "helpers rebuilt: R03d finds none of its five instances, and C06 cannot bound two index parameters that every call\n"
+                   "site passes as constants), C03-16 (the comparison functions taken from a table of function values: R03c cannot\n"
+                   "resolve them), C10-15 (ProcessEvent split: R01e does not follow the rule list through `rulesInScope` /\n"
+                   "`runRules`), C12-15 (the lock of the named mutex in a helper that is handed the mutex: the anchor of R12b/R12c is\n"
+                   "not found). Every thorough run applies them and reports them as documented open false alarms, not as passes.\n")
     out.append("\n| id | restructuring | alarms at first contact |\n|---|---|---|\n")
     for m in rs:
         a=', '.join(m.get('alarms_at_first_contact',[])) or '—'
+        if m.get('status','silent')!='silent':
+            a+=' — **open (not repaired)**'
         t=m['title'].replace('|','/')
         out.append(f"| {m['id']} | {t} | {a} |\n")
 open('/verif/refactors/README.md','w').write(''.join(out))
